@@ -50,10 +50,12 @@ func (r *Reporter) add(st Status, pos, fn, construct, why string) *Oblig {
 	return o
 }
 
-func (r *Reporter) OK(pos, fn, construct, why string)   { r.add(Discharged, pos, fn, construct, why) }
-func (r *Reporter) Bad(pos, fn, construct, why string)  { r.add(Violated, pos, fn, construct, why) }
+func (r *Reporter) OK(pos, fn, construct, why string)    { r.add(Discharged, pos, fn, construct, why) }
+func (r *Reporter) Bad(pos, fn, construct, why string)   { r.add(Violated, pos, fn, construct, why) }
 func (r *Reporter) Dunno(pos, fn, construct, why string) { r.add(Undecided, pos, fn, construct, why) }
-func (r *Reporter) Note(format string, a ...any)         { r.notes = append(r.notes, fmt.Sprintf(format, a...)) }
+func (r *Reporter) Note(format string, a ...any) {
+	r.notes = append(r.notes, fmt.Sprintf(format, a...))
+}
 
 // Check records OK when cond holds, otherwise Bad.
 func (r *Reporter) Check(cond bool, pos, fn, construct, okWhy, badWhy string) bool {
@@ -67,10 +69,10 @@ func (r *Reporter) Check(cond bool, pos, fn, construct, okWhy, badWhy string) bo
 
 // Rule is a named analysis.
 type Rule struct {
-	ID   string
-	Doc  string
-	Run  func(p *Prog, r *Reporter)
-	Min  int // minimum number of obligations (specification constants / ">=1 anchor")
+	ID  string
+	Doc string
+	Run func(p *Prog, r *Reporter)
+	Min int // minimum number of obligations (specification constants / ">=1 anchor")
 }
 
 type KnownFinding struct {
